@@ -299,6 +299,15 @@ def check(prog, g=None, g0=None):
             ok = pre_ok and i == len(prog) - 1
             (fails if ok else down).append((api_of(op) + ".completes", "legal call raised %s: %s" % (type(e).__name__, e), {"step": i}))
             return n + 1, fails, down
+        if i < len(prog) - 1:
+            # intermediate observation: every Sequential built so far is applied once after every step, so the final observation below
+            # is made on objects that have already been called in earlier states (forward must be a function of the CURRENT registry)
+            for m_ in list(w.M.values()):
+                if isinstance(m_, Sequential):
+                    try:
+                        m_(1)
+                    except Exception:
+                        pass        # reported by the check of that prefix, where this call is the final observation
     for s in g.usedM:
         w.mod(s)
     for s in g.usedP:
@@ -505,7 +514,12 @@ def source(prog):
          "class T(Module):", "    def forward(self, x): return x"]
     L += ["M%d = T()" % j for j in sorted(g.usedM) if j not in seqs]
     L += ["P%d = Parameter(np.ones(%d, dtype=np.float32), requires_grad=True)" % (k, SIZES[k]) for k in sorted(g.usedP)]
-    for op in prog:
+    built = []
+    for oi, op in enumerate(prog):
+        if oi > 0:
+            L += ["M%d(1)    # intermediate observation (forward must depend on the current registry only)" % j for j in built]
+        if op[0] == "seq":
+            built.append(op[2])
         if op[0] == "set":
             v = {"M": "M%s", "P": "P%s"}.get(op[3][0], "")
             v = v % op[3][1] if v else ("None" if op[3][0] == "none" else str(INT))
